@@ -644,12 +644,12 @@ func (g *gen) callExpr(t *Type, depth int) (expr, bool) {
 		for _, a := range args {
 			vals = append(vals, a.eval(e))
 		}
-		return callFn(f, vals)[0]
+		return callFn(f, vals, e.flat)[0]
 	}}, true
 }
 
-func callFn(f *function, args []Val) []Val {
-	e := &env{flat: flatScopes}
+func callFn(f *function, args []Val, flat bool) []Val {
+	e := &env{flat: flat}
 	e.push()
 	for i, p := range f.params {
 		e.def(p.name, args[i])
@@ -1341,7 +1341,7 @@ func (g *gen) multiCall(depth int) (stmt, bool) {
 		for _, a := range args {
 			vals = append(vals, a.eval(en))
 		}
-		res := callFn(f, vals)
+		res := callFn(f, vals, en.flat)
 		for i, n := range names {
 			en.def(n, res[i])
 		}
@@ -1551,24 +1551,18 @@ func (p *Program) Minimise(keep func(src string) bool) {
 	p.Src = p.Render()
 }
 
-// flatScopes selects the alternate "no block scopes" semantics for the
-// duration of RunFlat (single-threaded use per worker process).
-var flatScopes bool
-
 // RunFlat executes the program under the alternate semantics in which an
 // inner `var x` of an existing name assigns the outer variable.
-func (p *Program) RunFlat(args []Val) ([]Val, error) {
-	flatScopes = true
-	defer func() { flatScopes = false }()
-	return p.Run(args)
-}
+func (p *Program) RunFlat(args []Val) ([]Val, error) { return p.run(args, true) }
 
 // Run executes the reference semantics.
-func (p *Program) Run(args []Val) (res []Val, err error) {
+func (p *Program) Run(args []Val) ([]Val, error) { return p.run(args, false) }
+
+func (p *Program) run(args []Val, flat bool) (res []Val, err error) {
 	defer func() {
 		if r := recover(); r != nil {
 			err = fmt.Errorf("interpreter: %v", r)
 		}
 	}()
-	return callFn(p.mainFn, args), nil
+	return callFn(p.mainFn, args, flat), nil
 }
